@@ -659,7 +659,7 @@ static void begin_exchange(const uint8_t *q)
 	}
 	cur_items = NULL;
 	cur_item_i = 0;
-	cur_chunk = vj_int(ex, "chunk", 0);
+	cur_chunk = getenv("VH_CHUNK") ? atoi(getenv("VH_CHUNK")) : (int)vj_int(ex, "chunk", 0);
 	cbpark_countdown = vj_int(ex, "parkcb", 0);
 	cur_keepopen = vj_int(ex, "keepopen", 0);
 	for (int i = 0; alts && i < alts->n; i++) {
